@@ -20,7 +20,7 @@ const fn b(world: &'static str, shape: &'static str, quick: u64, thorough: u64) 
 /// shapes cannot reach may still break that property in a shape built for another.
 pub fn batches(prop: &str) -> Vec<Batch> {
     const A_SHAPES: &[&str] = &["mixed", "concurrent", "restart", "crash", "poolchange", "roam", "rhythm", "growth", "wire", "listing", "hostile", "drain", "restart-pair", "images", "acl-http"];
-    const B_SHAPES: &[&str] = &["tcpidle", "basic", "faulty", "idreuse", "burst", "sizes", "large", "routes", "cache", "acl", "hostile", "flood", "cookie"];
+    const B_SHAPES: &[&str] = &["pipeline", "tcpidle", "basic", "faulty", "idreuse", "burst", "sizes", "large", "routes", "cache", "acl", "hostile", "flood", "cookie"];
     let mut v = own_batches(prop);
     let in_a = matches!(prop, "C01" | "C02" | "C09" | "C10" | "C12" | "C13" | "C18" | "C20" | "C08" | "C05");
     let in_b = matches!(prop, "C03" | "C04" | "C06" | "C07" | "C08" | "C14" | "C15" | "C16" | "C05");
@@ -56,10 +56,10 @@ fn own_batches(prop: &str) -> Vec<Batch> {
         "C03" => vec![b("B", "basic", 2500, 120_000), b("B", "sizes", 1500, 60_000), b("B", "faulty", 1500, 60_000), b("B", "cache", 800, 30_000)],
         "C04" => vec![b("B", "sizes", 3000, 120_000), b("B", "large", 400, 20_000), b("B", "basic", 1500, 60_000)],
         "C06" => vec![b("B", "cache", 3000, 150_000)],
-        "C07" => vec![b("B", "basic", 2000, 100_000), b("B", "faulty", 3000, 150_000), b("B", "burst", 800, 40_000), b("B", "sizes", 800, 40_000), b("B", "idreuse", 600, 40_000), b("B", "tcpidle", 1000, 60_000)],
+        "C07" => vec![b("B", "basic", 2000, 100_000), b("B", "faulty", 3000, 150_000), b("B", "burst", 800, 40_000), b("B", "sizes", 800, 40_000), b("B", "idreuse", 600, 40_000), b("B", "tcpidle", 1000, 60_000), b("B", "pipeline", 800, 40_000)],
         "C14" => vec![b("B", "large", 500, 20_000), b("B", "sizes", 2000, 80_000)],
         "C15" => vec![b("B", "routes", 3000, 160_000), b("B", "basic", 1000, 40_000)],
-        "C16" => vec![b("B", "flood", 1200, 60_000), b("B", "cookie", 1200, 60_000)],
+        "C16" => vec![b("B", "flood", 1200, 60_000), b("B", "cookie", 1200, 60_000), b("B", "manyflood", 100, 4_000)],
         _ => vec![],
     }
 }
@@ -81,7 +81,7 @@ pub fn expected_probes(prop: &str) -> &'static [&'static str] {
         "C03" => &["C03.complete_relayed_answer", "C06.served_from_cache", "C04.truncated_response"],
         "C04" => &["C04.truncated_response", "C14.response_over_16k", "C14.many_compression_pointers"],
         "C06" => &["C06.served_from_cache", "C06.hit_exactly_at_ttl", "C06.query_aimed_at_ttl_boundary", "C06.near_miss_key_in_same_run", "C06.repeated_key_resolved_upstream"],
-        "C07" => &["C07.query_aimed_at_upstream_tcp_idle_timers", "C07.several_responses_seen", "C07.servfail_after_fault", "C07.query_to_secondary_local_address", "C07.response_sent_from_ipv4_only_listener", "in.udp.no_socket"],
+        "C07" => &["C07.several_queries_on_one_client_connection", "C07.query_aimed_at_upstream_tcp_idle_timers", "C07.several_responses_seen", "C07.servfail_after_fault", "C07.query_to_secondary_local_address", "C07.response_sent_from_ipv4_only_listener", "in.udp.no_socket"],
         "C14" => &["C14.response_over_16k", "C14.many_compression_pointers"],
         "C15" => &["C15.forge_nxdomain_route", "C15.forward_route", "C15.no_route", "C15.no_recursion_desired_on_forward_route"],
         "C16" => &[
@@ -99,6 +99,8 @@ pub fn expected_probes(prop: &str) -> &'static [&'static str] {
             "C16.cookie_case.valid_prefix_only",
             "C16.cookie_case.valid_plus_extra_octets",
             "C16.cookie_case.forged_under_all_zero_key",
+            "C16.fresh_source_probes_while_many_others_flood",
+            "C16.flooder_probes_again_after_everybody_was_silent",
         ],
         _ => &[],
     }
